@@ -104,13 +104,14 @@ FS1K = ["--max-field-sensitivity-array-size", "1024"]
 
 def H(prop, module, name, tier="quick", timeout=120, bounds="", encodes=(), stubs=(), assumes=(),
       expect="pass", replay="playback", unwind=None, kani_args=(), unwind_is_violation=False, note="",
-      no_cover=None, cbmc_args=()):
+      no_cover=None, cbmc_args=(), tagged_results=False):
     if expect == "witness-fail" and timeout < 600:
         timeout = 600   # a twin that comes back without a verdict breaks the whole check: never let it be the time limit
     HARNESSES.append(dict(prop=prop, module=module, name=name, tier=tier, timeout=timeout, bounds=bounds,
                           encodes=list(encodes), stubs=list(stubs), assumes=list(assumes), expect=expect,
                           replay=replay, unwind=unwind, kani_args=list(kani_args),
-                          unwind_is_violation=unwind_is_violation, note=note, no_cover=no_cover, cbmc_args=list(cbmc_args)))
+                          unwind_is_violation=unwind_is_violation, note=note, no_cover=no_cover, cbmc_args=list(cbmc_args),
+                          tagged_results=tagged_results))
 
 
 def select(prop, tier):
@@ -581,7 +582,8 @@ H("C06", "model", "c06_from_existing_minimal_model", tier="thorough", unwind=80,
   stubs=_HALFSTUB, cbmc_args=FS1K, kani_args=["--no-assertion-reach-checks"],
   no_cover="harness without any kani::assume (both vertices and all stream bytes are enumerated); cover!/reachability checks dropped because trace generation on the 3.6 M-variable formula ran out of memory")
 
-for n in ("index", "vertex"):
+# (c18_model_truncated_in_vertex_buffer in harness/model.rs is not registered: out of memory at 10 GB after 35 min)
+for n in ("index",):
     H("C18", "model", "c18_model_truncated_in_%s_buffer" % n, tier="thorough", unwind=80, timeout=2400, cbmc_args=FS1K, kani_args=["--no-assertion-reach-checks"],
       bounds="the generated minimal model of c06_from_existing_minimal_model cut off inside its %s buffer (length concrete), all buffer bytes symbolic: no panic" % n,
       encodes=["model::MDL::from_existing", "model::ModelData (binrw)"], stubs=_HALFSTUB)
@@ -598,6 +600,34 @@ for n in ("at0_1block", "at2_2blocks", "at3_3blocks_grows_file", "behind_end_lea
 for n in ("inside_file", "nothing", "across_end"):
     H("C03", "patch", "c03_wipe_" + n, tier="quick" if n == "across_end" else "thorough", unwind=70, timeout=600,
       bounds="zero-fill kernel, position and length concrete (" + n + "), 300 previous file bytes symbolic", encodes=["patch::wipe"], stubs=_MFS)
+
+# C03 / C15 / C17: ZiPatch::apply as a whole over the file model and the format engine model (session 3).  Needs two layout-only
+# models on top (see TRANSFORMS["patch"] and check: patch_binrw(tagged_results)): explicit tag bytes for patch.rs's data-carrying
+# enums and a niche-free binrw::Error, without which nothing read out of a parsed command is a constant for symbolic execution.
+_AP = dict(tier="thorough", unwind=160, timeout=3000, cbmc_args=["--max-field-sensitivity-array-size", "2048"], kani_args=["--no-assertion-reach-checks"],
+           tagged_results=True,
+           encodes=["patch::ZiPatch::apply", "patch::PatchChunk / ChunkType / SqpkChunk / SqpkOperation (binrw)", "patch::get_expansion_folder_sub",
+                    "common::get_platform_string", "patch::write_empty_file_block_at", "patch::wipe", "sqpack::read_data_block_patch"],
+           stubs=_MFS + FMT + ["#[repr(u8)] on patch::ChunkType / SqpkOperation / FileHeaderChunk (layout only)",
+                               "`chunk_type != ChunkType::EndOfFile` spelled `!matches!(chunk_type, ChunkType::EndOfFile)`",
+                               "binrw::Error (model): #[repr(u8)], 256 variants, one 2 KiB variant never constructed: Result<T, binrw::Error> gets a plain tag instead of rustc's multi-variant niche layout",
+                               "core::str::validations::run_utf8_validation -> ASCII-only model", "core::slice::memchr::{memchr_aligned, memrchr} -> naive scans"])
+_APB = "patch = header + T (platform concrete) + one command + EOF_; ids, offsets, counts concrete per instance; previous file contents, payload bytes, reserved and CRC bytes symbolic: "
+H("C03", "patch", "c03_apply_delete_data", bounds=_APB + "D at block 2, 2 blocks, in a 640-byte dat3 of category 0a / ex1 / chunk 02 / win32", **_AP)
+H("C03", "patch", "c03_apply_expand_data", bounds=_APB + "E at block 1, 3 blocks, ps4, data file does not exist yet", **_AP)
+H("C03", "patch", "c03_apply_delete_data_across_end", bounds=_APB + "D at block 2, 4 blocks, ps3, file of 384 bytes (range starts inside, ends behind the end)", **_AP)
+H("C03", "patch", "c03_apply_add_data", bounds=_APB + "A: 128 payload bytes at block 1 + 1 block wiped, 640-byte file", **_AP)
+H("C03", "patch", "c03_apply_add_data_at_end_no_delete", bounds=_APB + "A: 128 payload bytes at block 5 (the end of the file), nothing wiped", **_AP)
+for n in ("overwrite_at_3", "replace_at_0", "new_at_16"):
+    H("C03", "patch", "c03_apply_add_file_" + n, bounds=_APB + "F/A with one raw block of 5 bytes (" + n + "), a neighbouring file must stay untouched", **_AP)
+H("C03", "patch", "c03_apply_delete_file", bounds=_APB + "F/D: exactly the named file disappears", **_AP)
+H("C03", "patch", "c03_apply_make_dir_tree", bounds=_APB + "F/M: parent directory created, files untouched", **_AP)
+H("C03", "patch", "c03_apply_second_target_info_wins", bounds="T(win32), T(ps4), E: the file of the second platform is created, none for the first", **_AP)
+_APH = dict(_AP); _APH["unwind"] = 1040; _APH["timeout"] = 3600
+for n, d in (("dat_version", "dat1, version header -> first KiB"), ("index_data", "index file (file number 0), data header -> second KiB"), ("index2_index", "index2 file, index header -> second KiB")):
+    H("C03", "patch", "c03_apply_header_update_" + n, bounds=_APB + "H: " + d + " of a 2048-byte file, 1024 header bytes symbolic", **_APH)
+for n in ("without_eof_is_an_error", "cut_mid_command_is_an_error"):
+    H("C17", "patch", "c17_apply_patch_" + n, bounds="patch T + D " + n.replace("_", " ") + " (concrete bytes): ZiPatch::apply returns Err", **_AP)
 
 # C07: MDL::write_to_buffer on a directly constructed minimal version-5 model (thorough: 15-17 min each, symbolic execution dominated)
 _WB = ["model::MDL::write_to_buffer", "model::ModelFileHeader (BinWrite)", "model::ModelData (BinWrite)", "model_vertex_declarations::vertex_element_writer",
